@@ -5,8 +5,7 @@ import client_common as cl
 WHAT = {"P10-call-does-not-return": "a public call did not return within one virtual day",
         "P10-panic": "a public call panicked",
         "P10-timeout-collapsed": "the terminal answered within the configured card-reading time but the client had already given up (timeout collapsed)",
-        "P10-unbounded": "a public call took more than one virtual day",
-        "P10-timeout-fired-early": "a reply that arrived one second before the per-packet timeout was not received (the client reconnected)"}
+        "P10-unbounded": "a public call took more than one virtual day"}
 
 
 def run(chk):
@@ -35,7 +34,7 @@ def run(chk):
     chk.cov["rule"] = ("TLC generates: a stall (silence, or half a frame then silence) at every frame of every exchange of {read_card, begin, commit, "
                        "cancel, configure} and of the handshake (connect stall, registration, identity check), read_card_timeout in %s; and for each "
                        "timeout value the terminal answering 'time-out' exactly that many seconds after the acknowledgement (the first attempt must "
-                       "receive it); a reply one second before the per-packet timeout (60 s; read_card: t + 2) in every exchange of every operation (must be received, no reconnect) and one second after it (the connection counts as failed: C09's acceptor runs on it). Plus configuration extremes. Every scenario runs in a debug and a release build on tokio's paused clock under a "
+                       "receive it); a reply one second before the per-packet timeout (60 s; read_card: t + 2) in every exchange of every operation (received with the shipped 60 s constant; a different constant is reported as MODEL-DRIFT, the property only demands a finite bound) and one second after it (the connection counts as failed: C09's acceptor runs on it). Plus configuration extremes. Every scenario runs in a debug and a release build on tokio's paused clock under a "
                        "one-virtual-day watchdog; TLC runs the P_C10 acceptor (returned, no panic, no collapse)" % (
                            "0..255" if thorough else "{0, 1, 15, 253, 254, 255}"))
     chk.sample({"calls": [c["op"] for c in sc[0]["calls"]], "config": sc[0]["config"], "plan": str(sc[0]["plan"])[:300]})
